@@ -102,6 +102,11 @@ func Fetch(
 			return nil
 		}
 
+		// Empty files are written without a payload, so there is nothing to decrypt, decompress or verify
+		if hdr.Size == 0 {
+			return dstFile.Close()
+		}
+
 		decryptor, err := encryption.Decrypt(tr, pipes.Encryption, crypto.Identity)
 		if err != nil {
 			return err
